@@ -333,11 +333,34 @@ def map_term(t, fn):
 
 
 def simp(t):
-    """Read-after-write:  store(b, k, v)[k] -> v"""
+    """Sound read-after-write rewrites:
+         store(b, k, v)[k]                -> v
+         store(b, k, v)[k2]               -> b[k2]      (k, k2 distinct consts)
+         mutsub(B, B[k], m, args)[k]      -> B[k]{.m(args)}
+         x{.append(a)}[-1]                -> a
+         [e0, e1, ...][i]                 -> ei
+    """
+    def neg1(x):
+        return x == ("const", -1) or x == ("un", "-", ("const", 1))
+
     def f(x):
-        if x[0] == "sub" and isinstance(x[1], tuple) and x[1] and \
-                x[1][0] == "store" and x[1][2] == x[2]:
-            return x[1][3]
+        if x[0] != "sub" or not isinstance(x[1], tuple) or not x[1]:
+            return x
+        b, k = x[1], x[2]
+        if b[0] == "store":
+            if b[2] == k:
+                return b[3]
+            if b[2][0] == "const" and k[0] == "const" and b[2] != k:
+                return f(("sub", b[1], k))
+        if b[0] == "mutsub" and isinstance(b[2], tuple) and b[2] and \
+                b[2][0] == "sub" and b[2][2] == k and \
+                no_uids(b[2][1]) == no_uids(b[1]):
+            return ("mut", b[2], b[3], b[4])
+        if b[0] == "mut" and b[2] == "append" and len(b[3]) == 1 and neg1(k):
+            return b[3][0]
+        if b[0] == "list" and k[0] == "const" and isinstance(k[1], int) \
+                and -len(b[1]) <= k[1] < len(b[1]):
+            return b[1][k[1]]
         return x
     return map_term(t, f)
 
